@@ -194,6 +194,18 @@ def exact(rng, tier):
         err = float((Y.Act(src) - tgt).abs().max())
         nontrivial += 1
         if err > 1e-8: fails.append(dict(clause='svdtf_exact', signature=f'n={n},{kind}', err=err))
+        # the alignment does not depend on the autograd state of its inputs: clouds that require grad (an alignment inside a training loop)
+        # get the same transform, for small clouds too (extent 0.02)
+        if k % 4 == 0 and kind == 'generic':
+            for ext in (1.0, 0.02):
+                sg = (src * ext).clone().requires_grad_(True); tg = X.Act(src * ext).detach()
+                Yg = pp.svdtf(sg, tg); Yp = pp.svdtf((src * ext), tg)
+                dg = float((Yg.tensor().detach() - Yp.tensor()).abs().max()); eg = float((Yg.detach().Act(src * ext) - tg).abs().max())
+                if dg > 1e-9 or eg > 1e-8 * ext:
+                    fails.append(dict(clause='svdtf_same_result_when_inputs_require_grad', signature=f'n={n},extent={ext}', difference=dg, residual=eg))
+                Zg = pp.svdstf(sg, tg); Zp = pp.svdstf((src * ext), tg)
+                if float((Zg.tensor().detach() - Zp.tensor()).abs().max()) > 1e-9:
+                    fails.append(dict(clause='svdstf_same_result_when_inputs_require_grad', signature=f'n={n},extent={ext}'))
         tgt2 = X.Act(s * src)
         try:
             Z = pp.svdstf(src, tgt2)
